@@ -2,7 +2,7 @@ TYPES = "server/store/types"
 
 PROPS["C05"] = prop(
     "exploration",
-    "exhaustive enumeration of all 256 sets / 65 536 pairs + rapid-generated mode and delta strings against an 8-bit set reference model; rapid-generated permission-change histories on a running server where every {pres what=acs} difference is applied to the stored permissions before the step and compared with the stored permissions after it",
+    "exhaustive enumeration of all 256 sets / 65 536 pairs + rapid-generated mode and delta strings against an 8-bit set reference model; rapid-generated permission-change histories on a running server where every {pres what=acs} difference is applied to the stored permissions before the step and compared with the stored permissions after it; thorough tier: the same generators and oracles also run under Go's native coverage-guided fuzzer (rapid.MakeFuzz, 60 s per target, all cores)",
     "exhaustive unit: every set and every ordered pair is one case (all non-trivial); string unit: rapid strings <= 8 runes over the mode alphabet, signs, N and junk, "
     "non-trivial = contains a valid letter and one of {N, sign, junk}; distinct = distinct (start, string) by FNV-64; notification unit: program = c06 permission histories (grants, own-mode changes, transfers, evictions, re-subscriptions) with sessions attached to 'me', non-trivial = >=2 notifications in +/- form and >=1 in absolute form judged",
     "All 256 permission sets and all 65 536 (old,new) pairs are enumerated (round trip through text/JSON/SQL forms, Delta/ApplyDelta/ApplyMutation); "
@@ -10,7 +10,7 @@ PROPS["C05"] = prop(
     "Trusts the Go compiler and the reference model in harness/types/c05_test.go; mode strings longer than 8 runes are not generated.",
     "5/C05", "types-pure",
     [Unit("TestC05Exhaustive", TYPES, rapid=False, shards_quick=1, shards_thorough=1),
-     Unit("TestC05Strings", TYPES, quick=50000, thorough=1000000, shards_quick=4, shards_thorough=16),
+     Unit("TestC05Strings", TYPES, quick=50000, thorough=1000000, shards_quick=4, shards_thorough=16, fuzz="FuzzC05Strings", fuzztime=60),
      Unit("TestC05AcsNotifications", "server", quick=1000, thorough=40000, shards_quick=8, shards_thorough=16, timeout_quick=300)],
     ["N combined with other letters, and deltas not starting with a sign, are treated as unspecified: only 'an error leaves the target unchanged' is required there"],
 )
